@@ -9,7 +9,6 @@ import (
 	"sort"
 	"strings"
 	"sync/atomic"
-	"time"
 
 	"github.com/gdamore/tcell/v2"
 	"github.com/gdamore/tcell/v2/terminfo"
@@ -84,7 +83,7 @@ func newSys(ti *terminfo.Terminfo, alt bool, o []op) *sys {
 		os.Setenv("TCELL_ALTSCREEN", "disable")
 	}
 	s := &sys{ti: ti, alt: alt, ops: o}
-	s.term = vt.New(4, 2, nil, vt.Quirks{FFClears: strings.HasPrefix(ti.Name, "sun"), NoAutoWrap: !ti.AutoMargin, AltFont: ti.EnterAcs == "\x1b[11m"})
+	s.term = vt.New(4, 2, nil, vt.Quirks{FFClears: strings.HasPrefix(ti.Name, "sun"), NoAutoWrap: !ti.AutoMargin, AltFont: ti.EnterAcs == "\x1b[11m" || ti.EnterAcs == "\x1b[12m"})
 	s.term.Title = "user title"
 	s.preTitle = s.term.Title
 	s.tty = common.NewFakeTty(s.term, 4, 2)
@@ -111,11 +110,7 @@ func newSys(ti *terminfo.Terminfo, alt bool, o []op) *sys {
 }
 
 func (s *sys) Close() {
-	done := make(chan struct{})
-	go func() { s.s.Fini(); close(done) }()
-	select {
-	case <-done:
-	case <-time.After(30 * time.Second):
+	if !common.Finishes(func() { s.s.Fini() }) {
 		atomic.AddInt32(&stuck, 1)
 	}
 }
@@ -355,13 +350,9 @@ func (s *sys) Apply(i int) (sig, desc string) {
 		s.s.Show()
 	case "suspend":
 		was := s.m.running
-		done := make(chan error, 1)
-		go func() { done <- s.s.Suspend() }()
-		select {
-		case <-done:
-		case <-time.After(30 * time.Second):
+		if !common.Finishes(func() { _ = s.s.Suspend() }) {
 			atomic.AddInt32(&stuck, 1)
-			return "suspend-hang", "Suspend() did not return within 30 s"
+			return "suspend-hang", "Suspend() did not return (every goroutine of the process blocked for 60 s)"
 		}
 		s.m.running = false
 		if was {
@@ -382,13 +373,9 @@ func (s *sys) Apply(i int) (sig, desc string) {
 			}
 		}
 	case "fini":
-		done := make(chan struct{})
-		go func() { s.s.Fini(); close(done) }()
-		select {
-		case <-done:
-		case <-time.After(30 * time.Second):
+		if !common.Finishes(func() { s.s.Fini() }) {
 			atomic.AddInt32(&stuck, 1)
-			return "fini-hang", "Fini() did not return within 30 s"
+			return "fini-hang", "Fini() did not return (every goroutine of the process blocked for 60 s)"
 		}
 		s.m.running, s.m.finished = false, true
 		if sg, d := s.restored("Fini"); sg != "" {
